@@ -1876,6 +1876,178 @@ class OsShim:
 
 
 # ------------------------------------------------------------------------------
+# unicodedata
+# ------------------------------------------------------------------------------
+
+_UD_FORMS = ('NFC', 'NFD', 'NFKC', 'NFKD')
+_UD_SECOND = None
+
+
+def _ud_second_set() -> frozenset:
+    """characters that can be absorbed into a preceding character by canonical composition: the second
+    member of a two-character canonical decomposition of any code point, and the Hangul V / T jamo.
+    (A superset is harmless: it only makes more characters 'active'.)  Read off CPython's unicodedata once."""
+    global _UD_SECOND
+    if _UD_SECOND is None:
+        out = set()
+        dec = unicodedata.decomposition
+        for cp in range(0x110000):
+            d = dec(chr(cp))
+            if d and d[0] != '<':
+                parts = d.split()
+                if len(parts) == 2:
+                    out.add(chr(int(parts[1], 16)))
+        out.update(chr(cp) for cp in range(0x1161, 0x1176))
+        out.update(chr(cp) for cp in range(0x11A8, 0x11C3))
+        _UD_SECOND = frozenset(out)
+    return _UD_SECOND
+
+
+def _ud_active(form: str, c: str) -> bool:
+    """can normalisation to `form` change this character, move it, or merge it into its predecessor?"""
+    full = 'NFKD' if 'K' in form else 'NFD'
+    return (unicodedata.combining(c) != 0 or unicodedata.normalize(full, c) != c or unicodedata.normalize(form, c) != c
+            or c in _ud_second_set() or 0x1100 <= ord(c) <= 0x11FF)
+
+
+def _ud_interacts(form: str, c: str, run: str) -> bool:
+    return unicodedata.normalize(form, c + run) != c + unicodedata.normalize(form, run)
+
+
+def _normalize_core(form, items, ask, concretize):
+    """items: plain characters and opaque (symbolic) ones.  ask(item, key, pred) decides a predicate on an
+    opaque item, concretize(item) makes it a plain character.  Every opaque character that normalisation
+    could change, move or merge (an 'active' one) is made concrete, likewise an inactive one that would
+    combine with the concrete run after it.  What stays opaque is a starter that does not decompose, cannot be
+    absorbed by its predecessor and does not combine with its successors: normalisation is then the
+    concatenation of CPython's normalisation of the concrete runs and the opaque characters themselves."""
+    cs = list(items)
+    for i, ch in enumerate(cs):
+        if not isinstance(ch, str) and ask(ch, ('ud-active', form), lambda c: _ud_active(form, c)):
+            cs[i] = concretize(ch)
+    again = True
+    while again:
+        again = False
+        for i, ch in enumerate(cs):
+            if isinstance(ch, str):
+                continue
+            j = i + 1
+            while j < len(cs) and isinstance(cs[j], str):
+                j += 1
+            run = ''.join(cs[i + 1:j])
+            if run and ask(ch, ('ud-int', form, run), lambda c, run=run: _ud_interacts(form, c, run)):
+                cs[i] = concretize(ch)
+                again = True
+                break
+    out, run = [], []
+    for ch in cs:
+        if isinstance(ch, str):
+            run.append(ch)
+        else:
+            out.extend(unicodedata.normalize(form, ''.join(run)))
+            run = []
+            out.append(ch)
+    out.extend(unicodedata.normalize(form, ''.join(run)))
+    return out
+
+
+class UnicodedataShim:
+    """stand-in for the `unicodedata` module.  normalize / is_normalized and the per-character look-ups work on
+    symbolic strings (tables are CPython's own, evaluated for every member of Σ); everything else passes plain
+    arguments through and raises a HarnessError naming the function for symbolic ones."""
+    _PER_CHAR = ('category', 'combining', 'bidirectional', 'east_asian_width', 'mirrored', 'decomposition', 'name',
+                 'decimal', 'digit', 'numeric')
+
+    def __getattr__(self, name):
+        real = getattr(unicodedata, name)
+        if not callable(real):
+            return real
+
+        def passthrough(*a, **kw):
+            if any(has_sym(x) for x in a) or any(has_sym(x) for x in kw.values()):
+                if name in self._PER_CHAR:
+                    return self._per_char(name, *a, **kw)
+                raise HarnessError(f'unicodedata.{name} on a symbolic string is not modelled')
+            return real(*a, **kw)
+        passthrough.__name__ = name
+        return passthrough
+
+    @staticmethod
+    def _concretize(ch):
+        sg = _st().sigma
+        return sg.chars[symex.ctx().concretize(z3.BV2Int(ch), limit=sg.n + 1)]
+
+    def normalize(self, form, unistr):
+        if isinstance(unistr, str) and not has_sym(unistr):
+            return unicodedata.normalize(form, unistr)
+        if not _isstr(unistr):
+            raise TypeError(f'normalize() argument 2 must be str, not {type(unistr).__name__}')
+        if has_sym(form):
+            raise HarnessError('unicodedata.normalize with a symbolic form argument is not modelled')
+        if form not in _UD_FORMS:
+            raise ValueError('invalid normalization form')
+        items = [_norm(ch) for ch in _chars(unistr)]
+        return _mk(_normalize_core(form, items, ch_test, self._concretize))
+
+    def is_normalized(self, form, unistr):
+        if isinstance(unistr, str) and not has_sym(unistr):
+            return unicodedata.is_normalized(form, unistr)
+        return _decide(eq(self.normalize(form, unistr), unistr))
+
+    def _per_char(self, name, chr_arg, *default):
+        """a per-character look-up on one symbolic character: fork over the distinct results within Σ"""
+        real = getattr(unicodedata, name)
+        cs = _chars(chr_arg)
+        if len(cs) != 1:
+            raise TypeError(f'{name}() argument must be a unicode character, not str')
+        ch = _norm(cs[0])
+        if isinstance(ch, str):
+            return real(ch, *default)
+        missing = object()
+
+        def value(c):
+            try:
+                return real(c)
+            except ValueError:
+                return missing
+        sg = _st().sigma
+        seen = []
+        for c in sg.chars:
+            v = value(c)
+            if v in seen:
+                continue
+            seen.append(v)
+            if ch_test(ch, ('ud', name, repr(v) if v is not missing else 'missing'), lambda x, v=v: value(x) == v if v is not missing else value(x) is missing):
+                if v is missing:
+                    if default:
+                        return default[0]
+                    raise ValueError(f'not a {name} character' if name != 'name' else 'no such name')
+                return v
+        raise HarnessError('character outside the alphabet')
+
+
+def replace_by_identity(mod_dict: dict, real_module, shim, setter, path_attr=None):
+    """inside the globals of a module under test, replace the real stdlib module — and every function the module
+    imported from it by name (`from re import split`) — by the stand-in.  setter(name, value) records and sets."""
+    for name, val in list(mod_dict.items()):
+        if val is real_module:
+            setter(name, shim)
+        elif path_attr is not None and val is getattr(real_module, path_attr, None):
+            setter(name, getattr(shim, path_attr))
+        elif callable(val) and not isinstance(val, type):
+            for holder_real, holder_shim in ((real_module, shim),) + (((getattr(real_module, path_attr), getattr(shim, path_attr)),) if path_attr else ()):
+                fname = getattr(val, '__name__', None)
+                if fname and getattr(holder_real, fname, None) is val:
+                    try:
+                        repl = getattr(holder_shim, fname)
+                    except (HarnessError, AttributeError):
+                        def repl(*a, _n=f'{getattr(holder_real, "__name__", "?")}.{fname}', **kw):
+                            raise HarnessError(f'{_n} is not modelled')
+                    setter(name, repl)
+                    break
+
+
+# ------------------------------------------------------------------------------
 # self test against CPython (translator validation; no symbolic context needed)
 # ------------------------------------------------------------------------------
 
@@ -1884,6 +2056,31 @@ SELFTEST_PATTERNS = [
     (r'a*?b', 0), (r'(?i)a[b-c]', 0), (r'\bab\b', 0), (r'^a|b$', 0), (r'(?<![^\W_])a(?![^\W_])', 0),
     (r'(a)|(b)', 0), (r'x*', 0), (r'(a+)+b', 0), (r'(a*)*b', 0), (r'(a|)+c', 0), (r'(?:a|b)*?c', 0), (r'a{1,2}b?', 0), (r'[^a.]', 0), (r'(?:(?<=a)|^)b', _re.IGNORECASE), (r'(a)\1', 0),
 ]
+
+
+class _Opaque:
+    def __init__(self, ch):
+        self.ch = ch
+
+
+def _selftest_normalize(alphabet='ae.\u0301\u0327\u00e9\uff0f\u2024\ufb01/\u1100\u1161\u212b', maxlen=3) -> int:
+    """the segment rule of _normalize_core against unicodedata.normalize: every character is handed in as an opaque
+    one (answers come from the real character), so whatever the rule leaves opaque is checked to be left alone by
+    CPython in that context"""
+    import itertools
+    n = 0
+    for k in range(maxlen + 1):
+        for t in itertools.product(alphabet, repeat=k):
+            s = ''.join(t)
+            for form in _UD_FORMS:
+                got = _normalize_core(form, [_Opaque(c) for c in s], lambda it, key, pred: bool(pred(it.ch)), lambda it: it.ch)
+                kept = sum(1 for x in got if isinstance(x, _Opaque))
+                got = ''.join(x.ch if isinstance(x, _Opaque) else x for x in got)
+                if got != unicodedata.normalize(form, s):
+                    raise HarnessError(f'unicodedata stand-in differs: normalize({form!r}, {s!r}): real '
+                                       f'{unicodedata.normalize(form, s)!r} mine {got!r}')
+                n += 1
+    return n
 
 
 def selftest(alphabet='ab.c/\\( 1)A:', maxlen=3) -> list:
@@ -1934,4 +2131,5 @@ def selftest(alphabet='ab.c/\\( 1)A:', maxlen=3) -> list:
     for s in ['0', '12', '007', '١٢']:
         if sym_int(s) != int(s):
             raise HarnessError('int stand-in differs')
+    n += _selftest_normalize()
     return [f'sstr selftest: {n} comparisons of the re / posixpath stand-ins with CPython agree']
